@@ -1001,7 +1001,7 @@ impl Property for C44 {
         case_strategy(tier.pick(40, 150))
     }
     fn budget(&self, tier: Tier) -> Budget {
-        Budget::new(tier.pick(1_500, 30_000), tier.pick(8, 16)).min_nontrivial(tier.pick(200, 5000)).case_timeout(90)
+        Budget::new(tier.pick(1_500, 30_000), tier.pick(8, 16)).min_nontrivial(tier.pick(200, 5000)).case_timeout(300)
     }
     fn rule(&self) -> String {
         "table schema = struct column + 1-5 typed scalar columns; 1-3 Parquet files whose physical schemas permute / drop / add columns and struct fields and use lower types of a value-preserving lattice; \
